@@ -73,9 +73,9 @@ where
     D: serde::Deserializer<'de>,
 {
     let s: &'de str = Deserialize::deserialize(deserializer)?;
-    // String::from(s) could panic and is not really infallibe.  It is removed in heapless 0.8.
-    #[allow(clippy::unnecessary_fallible_conversions)]
-    match String::try_from(s) {
+    // With heapless 0.7, String::try_from(s) resolves to the blanket impl over the panicking
+    // String::from(s), so an over-long string would panic.  FromStr is the fallible conversion.
+    match s.parse::<String<L>>() {
         Ok(string) => Ok(Some(string)),
         Err(_err) => {
             info_now!("skipping field: {:?}", _err);
